@@ -204,8 +204,21 @@ def linearize_dict(kwargs, separator=".") -> dict:
     return dict_
 
 
-@lru_cache(maxsize=1000)
 def color_validator(color_input, allow_None=True, parent_name=""):
+    """validates color inputs based on chosen `backend', allows `None` by default.
+    See `_color_validator` (cached) for parameters."""
+    # inputs that compare equal can mean different colors, e.g. (1, 0, 0) is an rgb tuple
+    # and (1.0, 0.0, 0.0) a matplotlib color: the element types are part of the cache key
+    types = (
+        tuple(type(c) for c in color_input)
+        if isinstance(color_input, tuple)
+        else type(color_input)
+    )
+    return _color_validator(color_input, allow_None, parent_name, types)
+
+
+@lru_cache(maxsize=1000)
+def _color_validator(color_input, allow_None=True, parent_name="", _types=None):
     """validates color inputs based on chosen `backend', allows `None` by default.
 
     Parameters
